@@ -93,6 +93,12 @@ func (w *webWriter) WriteHeader(code int) {
 }
 
 func (w *webWriter) Flush() {
+	if enc, ok := w.resp.(io.Closer); ok {
+		// grpc-web-text: pad what the base64 encoder still buffers, so that
+		// everything written so far is decodable, and start a new chunk.
+		enc.Close() //nolint
+		w.resp = base64.NewEncoder(base64.StdEncoding, w.w)
+	}
 	if w.wroteHeader || w.wroteResp {
 		if f, ok := w.w.(http.Flusher); ok {
 			f.Flush()
